@@ -12,3 +12,5 @@ import GoNeat.Props.C09
 import GoNeat.Props.C09Exact
 import GoNeat.Props.C10
 import GoNeat.Props.C02
+import GoNeat.Props.C02Ids
+import GoNeat.Props.C02Epoch
